@@ -29,6 +29,18 @@ CLAIMED = {
  "C12": ("reference-model + direct-oracle monitor over an exhaustive slice lattice",
          "x[start:stop:step] for n in 0..7 over a 25x25x17 boundary lattice (incl. +-2^62, 2^63-1, -2^63) on arrays and on strings of mixed-width code points (exhaustive), seeded n <= 300 with random 64-bit parameters and the projection rule, compared with the specification's slice algorithm evaluated on big integers by two independent oracles.",
          "Integer literals beyond 64 bits are a grammar gap.", "§6 C12"),
+ "C10": ("metamorphic monitor (implied parentheses) + reference-model monitor over all operator pairs/triples with distinguishing documents",
+         "For every ordered pair and (thorough) triple of the 18 binary operator spellings, with and without unary prefixes, documents are searched on which the specified grouping differs from every other grouping; on those the library's result for the bare chain must equal its result for the chain with the implied parentheses written out and the model's value, and every explicitly parenthesised alternative must match the model.",
+         "Chains for which no distinguishing document exists (e.g. + with -) cannot be decided by execution and are only counted; arithmetic on non-numbers and // % with mixed signs are not judged.", "§6 C10"),
+ "C13": ("direct-oracle monitor using unique element ids (permutation, order, stability, extremes, input snapshot)",
+         "Arrays of records carrying their original index are sorted/minimised by the library; the monitor reads permutation, non-decreasing order by exact numeric value / code point, stability of equal keys, extremality and membership straight off the ids, for lengths up to 5000 with heavy duplication, numeric respellings and cross-plane strings; invalid arrays with the offending element at every position must raise invalid-type; the input is compared with a snapshot.",
+         "Key order is computed with big.Rat / code points by the harness.", "§6 C13"),
+ "C17": ("metamorphic monitor: structural identities, library against itself",
+         "Every instantiation of the identity schemata over 15 bases x 40 selector tails x 11 filters x 12 documents (plus seeded random ones) is evaluated on both sides by the library and the outcomes compared (values canonically, errors by category).",
+         "The reference model is only used to drop instances whose meaning is not pinned (order-dependent enumerations, null elements meeting multi-selects/functions); dropped instances are counted.", "§6 C17"),
+ "C20": ("reference-model + relational-law monitor over all pairs/triples of a value pool",
+         "All ordered pairs of a 64-value pool through ==, !=, contains, filter equality and container wrappers (literal and document routes) against deep type-strict model equality with reflexivity, symmetry, negation; all triples for transitivity (thorough); every value pair through !, &&, ||, filter predicates against the single false-like set, && and || returning an operand unchanged; random nested values with controlled perturbations.",
+         "Numbers compared exactly as rationals; values beyond 34 digits are not in the pool.", "§6 C20"),
 }
 
 ALL = ["C%02d" % i for i in range(1, 21)]
